@@ -7,7 +7,6 @@ package ristretto
 
 import (
 	"math"
-	"sync"
 	"sync/atomic"
 
 	"github.com/dgraph-io/ristretto/v2/z"
@@ -24,7 +23,7 @@ func newPolicy[V any](numCounters, maxCost int64) *defaultPolicy[V] {
 }
 
 type defaultPolicy[V any] struct {
-	sync.Mutex
+	verifMutex
 	admit    *tinyLFU
 	evict    *sampledLFU
 	itemsCh  chan []uint64
